@@ -6,11 +6,11 @@ from vlib.core import qlit, qvec, qmat, coqbool, natlist, blist
 
 OBLIGATIONS = dict(
     prop_file='Properties/C03.v',
-    glue=['Glue/CoreGlue.v'] + ['Glue/Pin_fp_C03.v'],
+    glue=['Glue/CoreGlue.v'] + ['Glue/Pin_fp_C03.v', 'Glue/Pin_p_rvq_flags.v'],
     extra=['Model/CoreCheck.vo'],
     gen_items=['k_ema_inplace', 'k_laplace', 'k_update_ema_denom', 'g_euclid_ema', 'g_euclid_update_ema', 'g_cosine_ema',
                'g_cosine_update_ema', 'g_euclid_mask_onehot', 'g_cosine_mask_onehot', 'g_rvq_shared_update', 'o_euclid_collectives',
-               'o_cosine_collectives', 'fp_C03'],
+               'o_cosine_collectives', 'fp_C03', 'p_rvq_flags'],
 )
 ASSUMPTIONS = [
     'float32 rounding of the EMA arithmetic is modelled by a tolerance: exact (tol 0) on the first step from a hand-set dyadic state with dyadic decay, 2^-20 relative on later steps and non-dyadic decay, 1e-5 relative on the normalised codebook',
